@@ -49,6 +49,9 @@ def check_pbcd(inp):
     if not np.array_equal(bt['z'][:c], bt['x'][:c] + 1):
       return 'preprocessor not applied exactly once'
     real.append(bt['x'][:c])
+  if all(n_ > 0 for n_ in sizes) and len(batches) != -(-total // b):
+    return (f'client sizes {sizes}, batch_size {b}: {len(batches)} batches (real rows per batch {[int(x[M].sum()) for x in batches]}), '
+            f'the concatenation of {total} rows fills {-(-total // b)}')
   cat = np.concatenate(real) if real else np.zeros(0, np.int64)
   if cat.tolist() != list(range(total)):
     return f'rows lost, duplicated or reordered: {cat.tolist()} vs 0..{total - 1}'
